@@ -43,7 +43,17 @@ def _burrow_ite[T: Base](expr: T) -> T:
         return expr
 
     different_idx = matches.index(False)
-    inner_if = claripy.If(expr.args[0], old_true.args[different_idx], old_false.args[different_idx])
+    true_arg = old_true.args[different_idx]
+    false_arg = old_false.args[different_idx]
+    if (
+        not isinstance(true_arg, Base)
+        or type(true_arg) is not type(false_arg)
+        or getattr(true_arg, "length", None) != getattr(false_arg, "length", None)
+    ):
+        # the differing operands have different sorts or sizes (e.g. x[3:0] vs y[3:0] with x, y of different sizes):
+        # there is no If over them
+        return expr
+    inner_if = claripy.If(expr.args[0], true_arg, false_arg)
     new_args = list(old_true.args)
     new_args[different_idx] = burrow_ite(inner_if)
     return old_true.__class__(old_true.op, new_args, length=expr.length)
